@@ -76,9 +76,15 @@ FUNCS = ["isal_inflate_stateless (driver loop + final read-ahead undo, crc_flag 
          "decode_huffman_code_block_stateless_base", "decode_next_lit_len", "decode_next_dist", "byte_copy",
          "static_lit_huff_code / static_dist_huff_code (igzip/static_inflate.h)", "rfc_lookup_table",
          "set_codes", "bit_reverse2", "setup_dynamic_header (prefix up to the code-length-code lengths)",
+         "setup_dynamic_header code-length decoding loop: symbols 0-15, repeat codes 16/17/18, literal->distance table switch, "
+         "lit_count/dist_count/lit_expand_count histograms (C02 family dyn_header_lengths; instrumented copy of the current source)",
+         "make_inflate_huff_code_header + decode_next_header (C02 family mkhdr, 12 concrete code-length-code shapes)",
          "make_inflate_huff_code_dist + decode_next_dist (C06 only, concrete code-length shapes)",
          "check_zlib_checksum, check_gzip_checksum, fixed_size_read (C02 only: trailer consumption / end position)"]
-STUBS = ["stored family: bodies of setup_static_header/setup_dynamic_header removed and the Huffman block decoder replaced by an "
+STUBS = ["dyn_header_lengths: VERIF_DYNHDR_CAPTURE line inserted before the post-loop set_codes() call and the call of decode_next_header "
+         "replaced by VERIF_DECODE_NEXT_HEADER in a scratch COPY of the current igzip_inflate.c (nothing committed to /repo); bodies of "
+         "make_inflate_huff_code_header/_lit_len/_dist, set_and_expand_lit_len_huffcode, header_matches_pregen removed (results unused)",
+         "stored family: bodies of setup_static_header/setup_dynamic_header removed and the Huffman block decoder replaced by an "
          "assert-unreachable glue (both unreachable under the stated assumption)",
          "dynamic-header prefix: bodies of make_inflate_huff_code_*, set_and_expand_lit_len_huffcode, decode_next_header removed "
          "(unreachable with 3 input bytes: CBMC reports a call to a body-less function as a failure)",
@@ -94,9 +100,10 @@ ASSUMPTIONS = ["stored family: decoding never arrives at a block header with BTY
                "END_INPUT and INVALID_SYMBOL accepted (ambiguous fault)",
                "set_codes: count[] is the histogram of the length fields, as setup_dynamic_header builds it",
                "spec/rfc1951.h is the reference semantics (self-tested against zlib at setup)"]
-OUTSIDE = ["whole isal_inflate_stateless / isal_inflate on Huffman-coded data (20 KB tables memcpy'd per block: no verdict at 2 bytes)",
-           "dynamic blocks beyond the HLIT/HDIST/HCLEN prefix: code-length decoding loop, repeat codes, make_inflate_huff_code_lit_len/"
-           "_dist/_header, set_and_expand_lit_len_huffcode (multi-symbol and long-code paths, code lengths up to 15) - measured out of reach",
+OUTSIDE = ["dyn_header_lengths: only the last 1-2 bytes of the code-length sequence are arbitrary (everything before is a concrete "
+           "prefix of zero runs), one fixed complete code-length code, decode_next_header replaced by a direct decoder of that code",
+           "whole isal_inflate_stateless / isal_inflate on Huffman-coded data (20 KB tables memcpy'd per block: no verdict at 2 bytes)",
+           "dynamic blocks: make_inflate_huff_code_lit_len, set_and_expand_lit_len_huffcode on symbolic lengths (multi-symbol and long-code paths, code lengths up to 15) - measured out of reach",
            "Huffman data longer than 2 bytes quick / 3-4 bytes thorough; distances > 256 before start of output for n >= 3",
            "assembly decoders igzip_decode_block_stateless_01/_04; gzip/zlib wrappers and trailers (C11/C19)",
            "set_codes on more than 4 symbols quick / 8 (12, 19 attempted) thorough"]
@@ -107,6 +114,9 @@ def bounds(valid_only):
             "fixed_huffman": "input 1-2 bytes quick, 1-3 (4 attempted) thorough; avail_out in {0,3} quick, {0,1,2,3,16} thorough; bfinal symbolic",
             "set_codes": "alphabets of 2..4 symbols quick, 1..8,12,19 thorough; all length vectors over 0..15",
             "dyn_header_prefix": "3 arbitrary bytes with BTYPE=10 or 11",
+            "dyn_header_lengths": "(HLIT,HDIST,lengths left before the boundary,arbitrary tail bytes): (5,3,1,1) quick; + (0,0,2,1) (29,29,3,1) "
+                                  "(0,0,2,2) (2,1,1,2) (0,4,0,2) thorough",
+            "mkhdr": "12 concrete code-length-code shapes; stale table contents and the 15 looked-up bits symbolic",
             "trailer (C02)": "bits in the bit buffer 0..64 (9 values quick, all 65 thorough) x following input bytes 0..11 (4 / 10 values), "
                              "bit-buffer contents, input bytes, running checksum and total_out symbolic; zlib and gzip",
             "mkdist (C06)": "15 concrete distance code-length vectors (empty, single code, complete, incomplete, long codes > 10 bits, "
@@ -242,3 +252,14 @@ def dynlens_query(hlit, hdist, back, tail, core=False, witness=False, timeout=No
         p["mem_gb"] = mem_gb
     return Query("dyn_header_lengths/hlit%d_hdist%d_back%d_t%d" % (hlit, hdist, back, tail), R, p, core=core,
                  family="dyn_header_lengths", weight=20)
+
+
+MKHDR_SHAPES = [",".join(str(l) for l in CLC_LENS), "1,1", "7", "2,2,2,2", "1,2,3,4,5,6,7,7", "3,3,3,3,3,3,3,3", "0,0,0,5",
+                "1,2,3", "4,4,4,4,4,4,4,4,4,4,4,4,4,4,4,4", "7,7,7,7,1", "0,0,0,0,0,0,0,0,0,0,0,0,0,0,0,0,3,3,2", "2,3,3,3,3,3,4,4"]
+
+
+def mkhdr_query(i, lens, core=False, witness=False):
+    """C02/C06: make_inflate_huff_code_header + decode_next_header on a concrete code-length-code shape."""
+    p = dict(harness="harness/C06/h_mkdist.c", units=["igzip/hufftables_c.c"], defines=FAST, hdefines=["H_MKHDR", "LENS=%s" % lens],
+             unwind=33, unwindset=["harness.2:1026", "harness.3:1026", "harness.4:100", "rfc_decode.0:17"], witness=witness)
+    return Query("mkhdr/shape%02d" % i, R, p, core=core, family="mkhdr", weight=2)
